@@ -30,6 +30,8 @@ type Knobs struct {
 	TCPAllocPct    int
 	// TCPRelayEvery: every n-th case runs an RFC 6062 history (0 = never).
 	TCPRelayEvery int
+	// Impostor: percent of worlds with a second user acting from client c0's transport address.
+	Impostor int
 }
 
 var defaultTimeouts = [][3]time.Duration{
@@ -141,8 +143,9 @@ func newHist(t *testing.T, rng *rand.Rand, rec *sim.Rec, k Knobs) *hist {
 	users := []string{"alice", "bob", "carol"}
 	nc := between(rng, k.Clients)
 	for i := 0; i < nc; i++ {
-		ip := net.IPv4(10, 1, 0, byte(1+i/2)).To4() // pairs of clients share an IP
-		port := 5000 + i
+		// clients 2k and 2k+1 share an IP (different ports); clients i and i+2 share a port (different IPs)
+		ip := net.IPv4(10, 1, 0, byte(1+i/2)).To4()
+		port := 5000 + i%2
 		user := users[rng.Intn(len(users))]
 		li := 0
 		if h.v6 && i%3 == 2 {
@@ -168,6 +171,23 @@ func newHist(t *testing.T, rng *rand.Rand, rec *sim.Rec, k Knobs) *hist {
 			w.Clients = append(w.Clients, tw)
 			h.clients = append(h.clients, tw)
 		}
+	}
+	// an impostor: another (valid) user's credentials used from the transport address of client c0
+	if len(h.clients) > 0 && rng.Intn(100) < k.Impostor {
+		c0 := h.clients[0]
+		twin := *c0
+		twin.Name = "impostor@" + c0.Name
+		twin.User = "bob"
+		if c0.User == "bob" {
+			twin.User = "carol"
+		}
+		twin.Pass = cfg.Users[twin.User]
+		twin.Nonce = ""
+		twin.Pending = map[[12]byte]uint16{}
+		twin.Inbox = nil
+		tw := &twin
+		w.Clients = append(w.Clients, tw)
+		h.clients = append(h.clients, tw)
 	}
 	for i := 0; i < nTCP; i++ {
 		c, err := w.NewTCPClient(fmt.Sprintf("t%d", i), net.IPv4(10, 1, 1, byte(1+i)).To4(), 6000+i, 0, users[rng.Intn(len(users))])
@@ -725,7 +745,7 @@ func histProp(cases map[string]int, k Knobs) PropDef {
 func init() {
 	register("C01", histProp(map[string]int{"quick": 1500, "thorough": 40000}, Knobs{
 		Clients: [2]int{1, 4}, TCPClients: [2]int{0, 1}, Peers: [2]int{2, 6}, Steps: [2]int{15, 40}, V6: 35, Deny: 60,
-		TimeoutSets: defaultTimeouts, Lifetimes: defaultLifetimes, W: weights(map[string]int{"data": 10}), TCPAllocPct: 5, TCPRelayEvery: 12,
+		TimeoutSets: defaultTimeouts, Lifetimes: defaultLifetimes, W: weights(map[string]int{"data": 10}), TCPAllocPct: 5, TCPRelayEvery: 12, Impostor: 35,
 	}))
 	register("C02", histProp(map[string]int{"quick": 1500, "thorough": 40000}, Knobs{
 		Clients: [2]int{1, 4}, TCPClients: [2]int{0, 1}, Peers: [2]int{3, 6}, Steps: [2]int{15, 40}, V6: 35, Deny: 30,
